@@ -13,7 +13,7 @@ package neutrino
 // is that of the replay driver (zz_verif_cfsync_test.go, same package): the
 // callbacks queryAllPeers / GetBlock / QueryDispatcher / BanPeer answer
 // according to the behaviour assigned to each peer (honest H, truthful-may-miss
-// T, liars CP/CX/PV/OM/OU/NH/NS/EX/HC/FO/SH/SF at a height k) with seeded
+// T, liars CP/CX/PV/OM/OU/OE/NH/NS/EX/OI/HC/FO/SH/SF at a height k) with seeded
 // choices (which T peers answer, in which order, which batched request is
 // answered next by which unbanned peer, a block not served, a stale cfcheckpt
 // message in front of an answer).  A seeded controller injects the block
